@@ -90,6 +90,8 @@ def run(ctx):
                'struct Foo {} (go.name = "__")', "union _u_ { 1: i32 _a_ }\nexception __x { 1: optional i32 a__ }", "union Empty {}", "exception OnlyOpt { 1: optional i32 a }",
                'struct T { 1: optional i32 a (go.tag = "`") }', 'struct T { 1: optional i32 a (go.tag = "json") }', 'struct T { 1: optional i32 a (go.label = "") }',
                "service S { void f() }\nservice T extends S {}", "enum E {}\nstruct S { 1: optional E e }", 'struct S { 1: optional set<S> (go.type = "slice") s }',
+               "/**\n */\nstruct S { 1: optional i32 x }", "/**\n\n*/\nconst i32 c = 1", "struct S {\n  /**\n   */\n  1: optional i32 x\n}",
+               "enum E {\n /**\n */\n A }", "service V {\n /** \n \n */\n void f() }", "/***/ typedef i32 T", "/** */ /**\n*/ struct S {}",
                "typedef list<L> L", "typedef map<string, M> M\nstruct S { 1: optional M m }", "struct S { 1: required S s }", "const list<i32> c = []\nconst map<string, list<i32>> m = {}"]
         for k, body in enumerate(odd):
             cases.append({"id": "odd-%d" % k, "files": {"/v/a.thrift": body + "\n"}, "nonstrict": False})
